@@ -466,33 +466,63 @@ Section Arith.
   Qed.
 
   (* chains: induction over the list of operator applications *)
-  Lemma apply_step_value : forall x s, exists x',
-    apply_step x s = Ok x' /\ value x' = arith_step (value x) s.
+  Lemma apply_step_total : forall x s, exists x', apply_step x s = Ok x'.
   Proof.
-    intros x [k f o|b].
-    - destruct (dunder_spec k f x o) as (r & Hr & _ & Hv & _).
-      exists (o_result r). cbn [NumExpr.apply_step]. rewrite Hr. split; [reflexivity|].
-      rewrite Hv. destruct f; reflexivity.
-    - eexists. split; [reflexivity|].
-      destruct (unary_spec b x) as (_ & Hv & _). rewrite Hv. destruct b; reflexivity.
+    intros x [k f o|b|i t|v]; try (eexists; reflexivity).
+    destruct (dunder_spec k f x o) as (r & Hr & _).
+    exists (o_result r). cbn [NumExpr.apply_step]. rewrite Hr. reflexivity.
   Qed.
 
-  Theorem chain_spec : forall l x, exists x',
+  Lemma apply_step_value : forall x s x', step_arith D s = true ->
+    apply_step x s = Ok x' -> value x' = arith_step (value x) s.
+  Proof.
+    intros x [k f o|b|i t|v] x' Hs H; try discriminate.
+    - destruct (dunder_spec k f x o) as (r & Hr & _ & Hv & _).
+      cbn [NumExpr.apply_step] in H. rewrite Hr in H. injection H as <-.
+      rewrite Hv. destruct f; reflexivity.
+    - cbn [NumExpr.apply_step] in H. injection H as <-.
+      destruct (unary_spec b x) as (_ & Hv & _). rewrite Hv. destruct b; reflexivity.
+    - cbn [NumExpr.apply_step] in H. injection H as <-. reflexivity.
+  Qed.
+
+  (* `.value` has no state: after ANY history of operator applications, in-place edits of tokens inside
+     the expression and value assignments, the value is the usual evaluation of the text the expression
+     prints NOW, and that text parses back to the current tree *)
+  Theorem history_value : forall l x, exists x',
+    apply_chain x l = Ok x' /\
+    eval_top (significant (re (body x'))) = Some (value x') /\
+    parse_top (significant (re (body x'))) = Some (se (body x')).
+  Proof.
+    induction l as [|s l IH]; intros x.
+    - exists x. split; [reflexivity|]. split; [apply eval_printed | apply parse_print].
+    - destruct (apply_step_total x s) as (x1 & H1).
+      destruct (IH x1) as (x' & H2 & E & Pp).
+      exists x'. cbn [NumExpr.apply_chain]. rewrite H1. auto.
+  Qed.
+
+  (* a token edit is seen by the value at once: the edited tree is evaluated, not a remembered one *)
+  Corollary edit_then_value : forall x i t,
+    eval_top (significant (re (ee i t (body x)))) = Some (value (edit_token x i t)).
+  Proof. intros. apply eval_printed. Qed.
+
+  Theorem chain_spec : forall l x, forallb (step_arith D) l = true -> exists x',
     apply_chain x l = Ok x' /\
     value x' = fold_left arith_step l (value x) /\
     eval_top (significant (re (body x'))) = Some (fold_left arith_step l (value x)).
   Proof.
-    induction l as [|s l IH]; intros x.
+    induction l as [|s l IH]; intros x Hall.
     - exists x. cbn. repeat split. apply eval_printed.
-    - destruct (apply_step_value x s) as (x1 & H1 & V1).
-      destruct (IH x1) as (x' & H2 & V2 & E2).
+    - cbn [forallb] in Hall. apply andb_prop in Hall as [Hs Hl].
+      destruct (apply_step_total x s) as (x1 & H1).
+      pose proof (apply_step_value x s x1 Hs H1) as V1.
+      destruct (IH x1 Hl) as (x' & H2 & V2 & E2).
       exists x'. cbn [NumExpr.apply_chain fold_left]. rewrite H1, H2, <- V1. repeat split; assumption.
   Qed.
 
   (* in-place chains on an expression inside a document edit the document only between the
      expression's own first and last token *)
   Definition step_inplace (s : step D) : bool :=
-    match s with SBin _ InPlace _ => true | _ => false end.
+    match s with SBin _ InPlace _ | SEdit _ _ | SSetValue _ => true | _ => false end.
 
   Theorem inplace_chain_frame : forall l x x',
     forallb step_inplace l = true -> apply_chain x l = Ok x' ->
@@ -502,10 +532,13 @@ Section Arith.
     - cbn in H. injection H as <-. reflexivity.
     - cbn [forallb] in Hall. apply andb_prop in Hall as [Hs Hl].
       cbn [NumExpr.apply_chain] in H.
-      destruct s as [k f o|b]; [|discriminate]. destruct f; try discriminate.
-      destruct (dunder_spec k InPlace x o) as (r & Hr & _ & _ & (_ & Hp & Hq) & _).
-      cbn [NumExpr.apply_step] in H. rewrite Hr in H.
-      specialize (IH _ _ Hl H). rewrite IH, Hp, Hq. reflexivity.
+      destruct s as [k f o|b|i t|v]; [|discriminate| |].
+      + destruct f; try discriminate.
+        destruct (dunder_spec k InPlace x o) as (r & Hr & _ & _ & (_ & Hp & Hq) & _).
+        cbn [NumExpr.apply_step] in H. rewrite Hr in H.
+        specialize (IH _ _ Hl H). rewrite IH, Hp, Hq. reflexivity.
+      + cbn [NumExpr.apply_step] in H. specialize (IH _ _ Hl H). rewrite IH. reflexivity.
+      + cbn [NumExpr.apply_step] in H. specialize (IH _ _ Hl H). rewrite IH. reflexivity.
   Qed.
 
   (* _add_expr_from_value: negative numbers become a unary minus on the absolute value *)
